@@ -45,14 +45,34 @@ def _free_and_stores(stmts):
             load(n.id)
     elif isinstance(node, ast.For):
       visit(node.iter)
+      before = set(assigned)
       visit_target(node.target)
       for s in node.body + node.orelse:
         visit(s)
-    elif isinstance(node, (ast.If, ast.While)):
+      assigned.clear()
+      assigned.update(before)        # the body may run zero times
+    elif isinstance(node, ast.If):
       visit(node.test)
-      # conservative: a name assigned in only one branch may still be read from outside
+      # each branch starts from the same set of assigned names; only names assigned in BOTH
+      # branches count as assigned afterwards (a name set in one branch may be read from outside)
+      before = set(assigned)
+      for s in node.body:
+        visit(s)
+      after_body = set(assigned)
+      assigned.clear()
+      assigned.update(before)
+      for s in node.orelse:
+        visit(s)
+      after_else = set(assigned)
+      assigned.clear()
+      assigned.update(after_body & after_else)
+    elif isinstance(node, ast.While):
+      visit(node.test)
+      before = set(assigned)
       for s in node.body + node.orelse:
         visit(s)
+      assigned.clear()
+      assigned.update(before)        # the body may run zero times
     elif isinstance(node, ast.Name):
       if isinstance(node.ctx, ast.Load):
         load(node.id)
@@ -180,3 +200,37 @@ def for_range_attr(attr):
         return True
     return False
   return sel
+
+
+def slice_prefix(func, select, name='prefix', skip_first=0):
+  """the top-level statements of `func` that precede the selected loop, as a callable returning
+  its locals (parameters = free variables in source order; `self` and the function's own
+  arguments included)"""
+  src = textwrap.dedent(inspect.getsource(func))
+  tree = ast.parse(src)
+  fdef = tree.body[0]
+  idx = [i for i, st in enumerate(fdef.body) if isinstance(st, (ast.For, ast.While)) and select(st)]
+  if len(idx) != 1:
+    raise SliceError('%d top-level loops match in %s' % (len(idx), func.__qualname__))
+  body = [st for st in fdef.body[skip_first:idx[0]]
+          if not (isinstance(st, ast.Expr) and isinstance(getattr(st, 'value', None), ast.Constant))]
+  free, stores = _free_and_stores(body)
+  glob = vars(inspect.getmodule(func))
+  params = [n for n in free if n not in dir(builtins) and n not in glob]
+  outs = list(dict.fromkeys(stores))
+  keys = [ast.Constant(o) for o in outs]
+  vals = [ast.Call(func=ast.Attribute(value=ast.Call(func=ast.Name(id='locals', ctx=ast.Load()), args=[], keywords=[]),
+                                      attr='get', ctx=ast.Load()), args=[ast.Constant(o)], keywords=[]) for o in outs]
+  fn = ast.FunctionDef(name=name,
+                       args=ast.arguments(posonlyargs=[], args=[], kwonlyargs=[ast.arg(arg=p) for p in params],
+                                          kw_defaults=[None] * len(params), defaults=[]),
+                       body=body + [ast.Return(value=ast.Dict(keys=keys, values=vals))], decorator_list=[], type_params=[])
+  mod = ast.Module(body=[fn], type_ignores=[])
+  ast.fix_missing_locations(mod)
+  ns = {}
+  exec(compile(mod, '<sliced-prefix:%s>' % func.__qualname__, 'exec'), glob, ns)
+  return ns[name], params, outs
+
+
+def while_loop(l):
+  return isinstance(l, ast.While)
